@@ -24,7 +24,8 @@ RULE = ("(a) anchor names built from {top,bottom,ogonek,top.alt,a1,x_y} with '_'
         "glyphs carrying plain / '_'-prefixed / numbered anchors (several per glyph, fractional and x.5 coordinates, a mark with "
         "both _top and _bottom, top vs top.alt, marks that are also bases, ligatures with gaps), quantisation {1,5,10}, "
         "groupMarkClasses on/off, GDEF via public.openTypeCategories or none, Latin/Devanagari code points (abvm/blwm); every "
-        "(glyph, glyph) pair and ligature component is evaluated. Non-trivial = some pair has >= 1 candidate class.")
+        "(glyph, glyph) pair and ligature component is evaluated. Non-trivial = some pair has >= 1 candidate class."
+        " A 12-component ligature (two-digit anchor numbers); Devanagari fonts that also hold anchored glyphs of an undeclared Indic script.")
 ASSUMPTIONS = ["OpenType mark attachment semantics as implemented in harness/otl.py"]
 
 FN_PARSE = ("fun c : (str * parse_res) => if parse_res_eqb (parse_anchor_name (fst c)) (snd c) then 3 else 2")
